@@ -31,6 +31,10 @@ PROP = {
             "the forms answered through an index scan / each join operator (measured on the real planner at generation time, in "
             "supervised children). Cases tagged reg.* (at most 22 %, each with exactly one such tag) enter the region of one listed "
             "finding; the others avoid all of them by construction. "
+            "Rule-level cases (`rule <schemas> <indexes> | <plan>`, 1 500 / 15 000 per run): a random logical plan over synthetic "
+            "schemas (nullable / NOT NULL columns, up to two indexes per table) is inserted into a fresh memo through the "
+            "`verif::plan` facade, every transformation rule of rules.rs is applied to its root and the alternatives (as plain trees) "
+            "must be exactly what the Lean rule functions of Model/Plan.lean produce (tags rule.fires.* = rules that fired). "
             "Every case is non-trivial; distinct = distinct case line.",
     "assumptions": [
         "indexed columns hold distinct non-NULL values (every index of the engine is a unique index; duplicates and NULLs in "
@@ -43,12 +47,16 @@ PROP = {
         "indexes are over columns of one type: beyond that lie two listed findings outside C06's mechanism",
         "the wrapped form (col + 0) exists for INT/BIGINT columns only; TEXT index columns are never wrapped",
         "LIMIT/OFFSET only under a total ORDER BY; partial ORDER BY answers are compared as sorted multisets (as in C05)",
+        "rule-level cases never join a plan with itself at the root: whether the memo takes two equal inputs for one group — and "
+        "then regards the commuted join as already known — depends on HashMap iteration order (Schema's Debug output is part of the memo hash)",
     ],
     "partial": "The rule theorems are proved for the plan algebra of Model/Plan.lean (scan, index scan, filter, project, join of every "
                "type) under the total semantics `evalPlan` (a predicate that fails on a row does not select it); `strict_agrees` "
                "links it to the error-propagating evaluation of C05's reference evaluator (when that succeeds both agree). Aggregates, "
                "DISTINCT, ORDER BY and LIMIT sit above the rewritten part of a plan and are not touched by any rule: covered by the tie "
-               "only. That the engine's planner applies exactly these rules, and its executors implement the algebra, is tested, not proved.",
+               "only. That the engine's rules are these functions is tested structurally (rule-level cases through the verif::plan facade), "
+               "that its executors implement the algebra and its cost-based choice stays inside the reachable plans is tested through "
+               "the pair runs; neither is proved.",
     "trusted": ["SQL printer of the three query forms (wrapping, operand permutation) and result canonicaliser of the Rust harness",
                 "the plan-shape digest read from Database::explain (diagnostics only, never gating)"],
 }
